@@ -56,7 +56,7 @@ ASSUMPTIONS = [
 ]
 MIN_NONTRIVIAL = 100000
 REQUIRED_COUNTERS = dict(
-    [('expected_' + k, 50) for k in oracle.KINDS] +
+    [('expected_' + k, 30) for k in oracle.KINDS] +
     [('expected_rejected', 1000), ('names_compared', 100000),
      ('fields_compared', 10000), ('ambiguity_checked', 100000),
      ('destination_flag_checked', 10000),
